@@ -24,6 +24,53 @@ let adapter_of (a : string array) =
   { a_type = atype_of (List.hd (ints a.(0))); a_seq = zl a.(1); a_wref = f.(0) <> 0; a_wq = f.(1) <> 0;
     a_indels = f.(2) <> 0; a_min_overlap = z1 a.(3); a_force_anywhere = f.(3) <> 0 }
 
+(* ---- pipeline configuration syntax (see harness/sysutil.py: model_line) *)
+let split c s = if String.trim s = "" then [] else String.split_on_char c s
+let opt_z s = match ints s with [] -> None | [x] -> Some (z_of_int x) | _ -> failwith "opt int"
+let single_of (f : string array) (o : int) =
+  (* f.(o) type, f.(o+1) seq, f.(o+2) "wref wq indels force", f.(o+3) minov, f.(o+4) thr *)
+  let fl = Array.of_list (ints f.(o + 2)) in
+  ({ a_type = atype_of (List.hd (ints f.(o))); a_seq = zl f.(o + 1); a_wref = fl.(0) <> 0; a_wq = fl.(1) <> 0;
+     a_indels = fl.(2) <> 0; a_min_overlap = z1 f.(o + 3); a_force_anywhere = fl.(3) <> 0 }, zl f.(o + 4))
+let padapter_of s =
+  let f = Array.of_list (String.split_on_char ',' s) in
+  match String.trim f.(0) with
+  | "S" -> let (ad, thr) = single_of f 2 in PSingle (zl f.(1), ad, thr)
+  | "L" -> let rq = Array.of_list (ints f.(2)) in
+           let (fa, ft) = single_of f 3 in let (ba, bt) = single_of f 8 in
+           PLinked (zl f.(1), fa, ft, ba, bt, rq.(0) <> 0, rq.(1) <> 0)
+  | _ -> failwith "adapter kind"
+let read_of s =
+  match String.split_on_char ',' s with
+  | [n; sq; q] -> { rname = zl n; rseq = zl sq; rqual = (if String.trim q = "-" then None else Some (zl q)) }
+  | _ -> failwith "read"
+let action_of = function 0 -> ATrim | 1 -> AMask | 2 -> ALowercase | 3 -> ARetain | 4 -> ACrop | 5 -> ANone | _ -> failwith "action"
+let rec nat_of_int n = if n <= 0 then O else S (nat_of_int (n - 1))
+let rec int_of_nat = function O -> 0 | S n -> 1 + int_of_nat n
+let options_of (a : string array) =
+  let fl = Array.of_list (ints a.(7)) in
+  let b i = fl.(i) <> 0 in
+  { o_cuts = zl a.(0); o_nextseq = opt_z a.(1);
+    o_qcut = (match ints a.(2) with [] -> None | [x; y] -> Some (z_of_int x, z_of_int y) | _ -> failwith "qcut");
+    o_qbase = z1 a.(3); o_adapters = List.map padapter_of (split ';' a.(4)); o_times = nat_of_int (List.hd (ints a.(5)));
+    o_action = action_of (List.hd (ints a.(6))); o_revcomp = b 0; o_poly_a = b 1; o_length = opt_z a.(8); o_trim_n = b 2;
+    o_length_tag = (match ints a.(9) with [] -> None | l -> Some (List.map z_of_int l));
+    o_strip_suffix = List.map zl (split ';' a.(10)); o_prefix = zl a.(11); o_suffix = zl a.(12); o_zero_cap = b 3;
+    o_min_len = opt_z a.(13); o_max_len = opt_z a.(14); o_max_n = opt_z a.(15); o_float_filters = [];
+    o_casava = b 4; o_discard_trimmed = b 5; o_discard_untrimmed = b 6; o_untrimmed_output = b 7;
+    o_too_short_output = b 8; o_too_long_output = b 9; o_demux = b 10; o_info_file = b 11 }
+let s_read r = szl r.rname ^ "," ^ szl r.rseq ^ "," ^ (match r.rqual with None -> "-" | Some q -> szl q)
+let s_field = function FS s -> "s" ^ szl s | FI n -> "i" ^ sz n
+let s_event e = String.concat " " [string_of_int (int_of_nat e.ev_idx); sz e.ev_end; sz e.ev_len; sz e.ev_errors; sz e.ev_adj; sb e.ev_rc; sb e.ev_first]
+let s_report rep =
+  String.concat "|" [
+    String.concat " " (List.map sz [rep.rep_n; rep.rep_total_bp; rep.rep_written; rep.rep_written_bp; rep.rep_with_adapters;
+                                    rep.rep_rc; rep.rep_qtrimmed; rep.rep_polya]);
+    String.concat " " (List.map (fun (c, n) -> sz c ^ ":" ^ sz n) rep.rep_filtered);
+    String.concat "/" (List.map (fun (d, rs) -> sz d ^ "=" ^ String.concat ";" (List.map s_read rs)) rep.rep_files);
+    String.concat ";" (List.map (fun row -> String.concat "," (List.map s_field row)) rep.rep_info);
+    String.concat ";" (List.map s_event rep.rep_events) ]
+
 let run cmd (a : string array) : string =
   match cmd with
   | "qtrim" -> let (s, e) = quality_trim_index (zl a.(0)) (z1 a.(1)) (z1 a.(2)) (z1 a.(3)) in sz s ^ " " ^ sz e
@@ -64,6 +111,7 @@ let run cmd (a : string array) : string =
         | _ -> failwith "triple" in
       let tab = if String.trim a.(1) = "" then [] else List.map parse_t (String.split_on_char ';' a.(1)) in
       sb (kmers_present (f.(0) <> 0) (f.(1) <> 0) tab (zl a.(2)))
+  | "pipeline" -> s_report (run_cli (options_of a) (List.map read_of (split ';' a.(16))))
   | _ -> failwith ("unknown command " ^ cmd)
 
 let () =
